@@ -633,3 +633,19 @@ func WaitRound(wg *sync.WaitGroup, grace time.Duration) (returned bool, blocked 
 	}
 	return false, ""
 }
+
+// RandomiseUnrelated sets the provider fields that only describe the requests the SP sends (passive / forced
+// authentication, NameID format, requested authentication contexts): they are no part of how an inbound message is
+// judged, so inbound monitors may set them to anything.
+func RandomiseUnrelated(r *rand.Rand, sp *saml2.SAMLServiceProvider) string {
+	sp.IsPassive, sp.ForceAuthn = r.IntN(2) == 0, r.IntN(2) == 0
+	sp.NameIdFormat = pick(r, []string{"", saml2.NameIdFormatPersistent, saml2.NameIdFormatTransient, saml2.NameIdFormatEmailAddress, saml2.NameIdFormatUnspecified, "urn:example:format"})
+	sp.RequestedAuthnContext = nil
+	switch r.IntN(4) {
+	case 0:
+		sp.RequestedAuthnContext = &saml2.RequestedAuthnContext{Comparison: saml2.AuthnPolicyMatchExact, Contexts: []string{saml2.AuthnContextPasswordProtectedTransport}}
+	case 1:
+		sp.RequestedAuthnContext = &saml2.RequestedAuthnContext{Comparison: pick(r, []string{"", saml2.AuthnPolicyMatchMinimum, saml2.AuthnPolicyMatchBetter}), Contexts: []string{"urn:oasis:names:tc:SAML:2.0:ac:classes:X509", "urn:oasis:names:tc:SAML:2.0:ac:classes:Kerberos"}}
+	}
+	return fmt.Sprintf("passive=%v force=%v nameid=%q rac=%v", sp.IsPassive, sp.ForceAuthn, sp.NameIdFormat, sp.RequestedAuthnContext != nil)
+}
